@@ -283,6 +283,23 @@ pub fn c18(opts: &Opts) -> Report {
     run_parallel(opts, "C18",
         "templates x shapes of the inputs array (fewer / equal / more entries than sections; empty, single and multiple inputs per section; repeated inputs across sections) x separator arrays (shorter, equal, longer); format_with_inputs is compared with literals + separator-join of format({S_k}, input) through the public API and with the model; non-trivial when the template has >= 2 sections; distinct by (template, inputs, separators)",
         opts.cases(3_000, 100_000), &|ctx, i| {
+            if i % 100 == 17 {
+                // one section with MANY inputs (not a multiple of any worker count), separators of several bytes
+                let n = *ctx.rng.pick(&[257usize, 259, 1003, 65, 4097]);
+                let sep = ctx.rng.pick(&[",", " · ", "→", ""]).to_string();
+                let text = ctx.rng.pick(&["{upper}", "tags: {append:!}.", "{split:-:0}"]).to_string();
+                let ins: Vec<String> = (0..n).map(|k| format!("w{k}-x")).collect();
+                let got = match real::parse(&text) { real::Parsed::Ok(t) => real::fwi(&t, &[ins.clone()], &[sep.clone()]), _ => Out::Err };
+                let inner = &text[text.find('{').unwrap()..=text.find('}').unwrap()];
+                let parts: Vec<String> = ins.iter().map(|x| match real::parse_format(inner, x) { Out::Ok(o) => o, _ => "?".into() }).collect();
+                let want = Out::Ok(format!("{}{}{}", &text[..text.find('{').unwrap()], parts.join(&sep), &text[text.find('}').unwrap() + 1..]));
+                ctx.rep.eval(); ctx.rep.bump("many_inputs_cases");
+                if got != want {
+                    viol(ctx, "property", format!("C18: format_with_inputs({text:?}, {n} inputs, {sep:?}) = {} but the joined standalone results are {}", trunc(&got.show()), trunc(&want.show())),
+                         vec![("template", text.clone()), ("inputs", format!("{n} inputs w0-x .. w{}-x", n - 1)), ("separators", format!("{sep:?}")), ("observed", got.show()), ("expected", want.show()), ("theorem", "C18_spec".into())]);
+                }
+                return;
+            }
             let segs = segments(&mut ctx.rng, 7);
             let (text, secs) = assemble(&segs);
             let nsec = secs.iter().filter(|s| matches!(s, Section::Sec(_))).count();
@@ -470,7 +487,8 @@ pub fn c05(opts: &Opts) -> Report {
             // pool for this history
             let mut inputs: Vec<String> = vec![COLLIDE_A.into(), COLLIDE_B.into(), "a,b,c".into(), "a,b,d".into(), "a;b;c".into(), "hello world".into(), "HELLO world".into(), "how o w\nHow".into(), String::new(), "k1,k2 k3".into(), "a;b c;d e".into(),
                 // texts that END with the separator: the last part is empty, whatever was looked up before
-                "p,q,".into(), "a,b,".into(), ",".into(), "x;".into()];
+                "p,q,".into(), "a,b,".into(), ",".into(), "x;".into(),
+                "ITEM,item,stem".into(), "tango,mango".into(), "b\u{1f}x".into(), "x".into(), "b\u{0}x".into()];
             if i % 3 == 0 { inputs.push(big_input(&mut ctx.rng)); inputs.push(big_input(&mut ctx.rng)); }
             let templates: Vec<(String, Vec<Section>)> = {
                 let mut v: Vec<Vec<Seg>> = vec![
@@ -496,6 +514,15 @@ pub fn c05(opts: &Opts) -> Report {
                     vec![Seg::Sec(vec![Op::Surround("Q".into())]), Seg::Sec(vec![Op::Surround("q".into())])],
                     // output is produced, then a LATER section fails at run time
                     vec![Seg::Lit("id=".into()), Seg::Sec(vec![Op::Split(",".into(), Range::Index(0))]), Seg::Lit(" tag=".into()), Seg::Sec(vec![Op::Split(",".into(), Range::Range(None, None, false)), Op::Upper])],
+                    // a flagged replace and an unflagged pattern whose text is the flag letters followed by that pattern
+                    vec![Seg::Sec(vec![Op::Replace("tem".into(), "X".into(), "i".into())]), Seg::Lit(" / ".into()), Seg::Sec(vec![Op::Split(",".into(), Range::Range(None, None, false)), Op::Filter("item".into())])],
+                    vec![Seg::Sec(vec![Op::Split(",".into(), Range::Range(None, None, false)), Op::Filter("mango".into())])],
+                    vec![Seg::Sec(vec![Op::Replace("ango".into(), "X".into(), "m".into())])],
+                    vec![Seg::Sec(vec![Op::Replace("tem".into(), "Y".into(), "s".into())]), Seg::Sec(vec![Op::RegexExtract("stem".into(), None)])],
+                    // (separator, text) pairs that coincide when glued together with a control character
+                    vec![Seg::Sec(vec![Op::Split("a".into(), Range::Range(None, None, false)), Op::Join("+".into())])],
+                    vec![Seg::Sec(vec![Op::Split("a\u{1f}b".into(), Range::Range(None, None, false)), Op::Join("+".into())])],
+                    vec![Seg::Sec(vec![Op::Split("a\u{0}b".into(), Range::Range(None, None, false)), Op::Join("+".into())])],
                     // producers of texts that later calls split again on the same separator
                     vec![Seg::Sec(vec![Op::Split(" ".into(), Range::Range(None, None, false)), Op::Join(",".into())])],
                     vec![Seg::Sec(vec![Op::Split(",".into(), Range::Range(None, None, false)), Op::Map(vec![Op::Upper]), Op::Join("-".into())])],
@@ -616,14 +643,37 @@ pub fn c17(opts: &Opts) -> Report {
                             out.push(real::parse_format(&format!("{{split:,:..|map:{{filter:[z{tag}n{r}}}}}"), "a,b"));
                         }
                         for j in 0..per { let (tpl, x) = call(t, j); out.push(real::parse_format(&tpl, &x)); }
+                        // long inputs that no other thread has: between 1 KB and the cache admission limit, and beyond it;
+                        // all threads make the first split of theirs at the same moment, then repeat it
+                        for r in 0..6 {
+                            let small = format!("t{t}r{r}_{},{}", "s".repeat(1500), (0..40).map(|k| format!("t{t}_{k:04}")).collect::<Vec<_>>().join(","));
+                            let big = format!("t{t}r{r}_{},{}", "b".repeat(10_500), (0..40).map(|k| format!("u{t}_{k:04}")).collect::<Vec<_>>().join(","));
+                            bar.wait();
+                            for x in [&small, &big] { for _ in 0..3 {
+                                out.push(real::parse_format("{split:,:3}", x));
+                                out.push(real::parse_format("{split:,:1..4|join:+}", x));
+                            } }
+                        }
                         out
                     }) }).collect();
                     hs.into_iter().map(|h| h.join().unwrap_or_default()).collect()
                 });
                 hooks::clear_caches();
                 for (t, rs) in results.iter().enumerate() {
-                    if rs.len() != rounds * 3 + per { viol(ctx, "property", format!("C17: thread {t} of regex-churn round {i} died"), vec![("round", format!("{}:{}", opts.seed, i)), ("theorem", "C17".into())]); return; }
-                    for (k, o) in rs.iter().enumerate() {
+                    if rs.len() != rounds * 3 + per + 6 * 12 { viol(ctx, "property", format!("C17: thread {t} of regex-churn round {i} died"), vec![("round", format!("{}:{}", opts.seed, i)), ("theorem", "C17".into())]); return; }
+                    // the long-input calls: the expected value is computed by hand
+                    for (k, o) in rs.iter().enumerate().skip(rounds * 3 + per) {
+                        let j = k - (rounds * 3 + per); let is_big = (j % 12) >= 6; let second = j % 2 == 1;
+                        let pfx = if is_big { 'u' } else { 't' };
+                        let want = if second { Out::Ok(format!("{pfx}{t}_0000+{pfx}{t}_0001+{pfx}{t}_0002")) } else { Out::Ok(format!("{pfx}{t}_0002")) };
+                        ctx.rep.bump("concurrent_calls");
+                        if *o != want {
+                            viol(ctx, "property", format!("C17: thread {t}, long input ({}): got {} but alone it is {}", if is_big { "beyond the cache limit" } else { "1.5 KB" }, trunc(&o.show()), want.show()),
+                                 vec![("template", if second { "{split:,:1..4|join:+}".into() } else { "{split:,:3}".to_string() }), ("input", format!("t{t}r*_<long>,{pfx}{t}_0000,...")), ("threads", "16".into()), ("round", format!("{}:{}", opts.seed, i)), ("observed", o.show()), ("expected", want.show()), ("theorem", "C17_concurrent_formats".into())]);
+                            return;
+                        }
+                    }
+                    for (k, o) in rs.iter().enumerate().take(rounds * 3 + per) {
                         ctx.rep.bump("concurrent_calls");
                         let (tpl, x) = if k < rounds * 3 { let r = k / 3; (match k % 3 { 0 => format!("{{filter:(r{tag}n{r}}}"), 1 => format!("{{replace:s/(q{tag}n{r}/b/}}"), _ => format!("{{split:,:..|map:{{filter:[z{tag}n{r}}}}}") }, if k % 3 == 2 { "a,b".to_string() } else { "abc".to_string() }) } else { call(t, k - rounds * 3) };
                         let alone = real::parse_format(&tpl, &x);
